@@ -259,6 +259,25 @@ def main():
         print('govc: cannot load /repo: %s' % e)
         sys.exit(2)
     _G['prog'] = prog
+    # pure renamings of locals: the sequence of local names of a function (order of first appearance) is recorded with
+    # the baseline; same length, different names at some positions, no clash => the old names become aliases
+    try:
+        recorded = load_baseline().get('!locals', {})
+        ren = {}
+        for fn_, f_ in prog.funcs.items():
+            base_seq = recorded.get(fn_)
+            if not base_seq:
+                continue
+            cur_seq = IR.local_names_seq(f_)
+            if cur_seq != base_seq and len(cur_seq) == len(base_seq):
+                rmap_ = {o_: n_ for o_, n_ in zip(base_seq, cur_seq) if o_ != n_}
+                if rmap_ and not (set(rmap_.keys()) & set(cur_seq)) and not (set(rmap_.values()) & set(base_seq)):
+                    ren[fn_] = rmap_
+        prog.renamed_locals = ren
+        if ren:
+            print('note: locals renamed since the baseline (treated as aliases): %s' % '; '.join('%s: %s' % (prog.short(k), ', '.join('%s->%s' % kv for kv in v.items())) for k, v in ren.items())[:400])
+    except Exception:
+        prog.renamed_locals = {}
     from spec import Spec
     import specparse
     try:
@@ -401,6 +420,14 @@ def main():
                     elif '+inst' in sv and s_ not in hints:
                         hints[s_] = 'inst'
         baseline[pid + '!hints'] = hints
+        loc = baseline.get('!locals', {})
+        for tgt_, con_ in spec.sf.contracts.items():
+            if con_.fn and con_.fn in prog.funcs:
+                loc[con_.fn] = IR.local_names_seq(prog.funcs[con_.fn])
+                for fn2_ in prog.funcs:
+                    if fn2_.startswith(con_.fn + '$'):
+                        loc[fn2_] = IR.local_names_seq(prog.funcs[fn2_])
+        baseline['!locals'] = loc
         json.dump(baseline, open(os.path.join(ROOT, 'baseline_obligations.json'), 'w'), indent=1, sort_keys=True)
         print('baseline for %s: %d obligations' % (pid, len(baseline[pid])))
         # what is not claimed is not part of the record of this run either (same as a quick run, which skips it)
